@@ -406,6 +406,8 @@ def gen_cases(rng: random.Random, tier: str) -> List[Case]:
                     cases.append(Case(be, scope, cols, "list"))
                     cases.append(Case(be, scope, cols, "dict", names=nm))
                     cases.append(Case(be, scope, cols, "explicit", names=nm, tree=rng.choice(["mytree", "t", "atlas_xaod_tree"])))
+                    # tree names that are not identifiers: the job must book, fill and report exactly the given name
+                    cases.append(Case(be, scope, cols, "explicit", names=nm, tree=rng.choice(["my tree", "analysis/nominal", " padded ", "t-1.x", "a  b", "Tree:1", "x/y/z"])))
                     k = rng.choice(["few", "many", "str", "dup", "empty", "digit"])
                     if k == "few":
                         names: Any = nm[:-1]
